@@ -304,14 +304,19 @@ def linearize(hs, u):
     return bad, states
 
 
-def binding_selftest(lines, u):
+def binding_selftest(lines, u, dirty=()):
     """Corrupt a recorded run in three ways and require TLC to reject each; corrupt an answer of a concurrent
-    history and require the linearizability search to fail."""
-    runs = [r for r in split_runs(lines)
-            if any(l["e"] == "request" and l["op"] == "reserve" and l["r"] == "ok" and l["names"] for l in r)
-            and any(l["e"] == "release" and l["post"] != [] for l in r)]
+    history and require the linearizability search to fail.  The run is one TLC found nothing wrong with, with a
+    granted reservation and an effective release that a later request follows."""
+    def fit(r):
+        if r[0]["id"] in dirty:
+            return False
+        rel = [i for i, l in enumerate(r) if l["e"] == "release" and l["post"] != []]
+        return (any(l["e"] == "request" and l["op"] == "reserve" and l["r"] == "ok" and l["names"] for l in r)
+                and any(l["e"] == "request" for l in r[rel[0] + 1:]) if rel else False)
+    runs = [r for r in split_runs(lines) if fit(r)]
     if not runs:
-        return {"ok": False, "why": "no run with a granted reservation and an effective release"}
+        return {"ok": False, "why": "no clean run with a granted reservation and an effective release followed by a request"}
     run = runs[len(runs) // 2]
     res = {}
     a = [dict(l) for l in run]       # (a) a granted reservation loses one of its names in the logged map
@@ -468,8 +473,8 @@ def run(pid, tier, seed, replay):
     pp, pt = os.path.join(work, "programs.ndjson"), os.path.join(work, "conc.trace.ndjson")
     write_ndjson(sp, scripts)
     write_ndjson(pp, progs)
-    _, seq_stat = run_vh(vh, "seq", up_seq, sp, st, seed, STUCK_TICKS)
-    _, conc_stat = run_vh(vh, "conc", up_conc, pp, pt, seed, STUCK_TICKS, reps=reps)
+    rc1, seq_stat = run_vh(vh, "seq", up_seq, sp, st, seed, STUCK_TICKS)
+    rc2, conc_stat = run_vh(vh, "conc", up_conc, pp, pt, seed, STUCK_TICKS, reps=reps)
     seq_lines, conc_lines = read_ndjson(st), read_ndjson(pt)
     vlib.log("[X02] %d scripts (%d from every state x alphabet, %d simulated), %d programs x %d: %d + %d calls on the real service"
              % (len(scripts), n_edge, len(scripts) - n_edge, len(progs), reps, seq_stat.get("calls", 0), conc_stat.get("calls", 0)))
@@ -479,10 +484,6 @@ def run(pid, tier, seed, replay):
     f_conc, s2 = judge(conc_lines, u_conc)
     hs = histories(conc_lines)
     nonlin, s3 = linearize(hs, u_conc)
-    selftest = binding_selftest(conc_lines, u_conc)
-    if not selftest["ok"]:
-        raise vlib.Inconclusive("binding self-test failed: %s" % json.dumps(selftest))
-
     th.join()
     if j1_err:
         raise j1_err[0]
@@ -533,6 +534,12 @@ def run(pid, tier, seed, replay):
             violations.append(v)
     violations = violations[:8]
 
+    # ---- binding self-test, on a run nothing was found in; without it a clean verdict means nothing
+    dirty = {f.run_lines[0]["id"] for f in f_conc}
+    selftest = binding_selftest(conc_lines, u_conc, dirty)
+    if not selftest["ok"] and not violations:
+        raise vlib.Inconclusive("binding self-test failed: %s" % json.dumps(selftest))
+
     steps = set()
     for l in seq_lines + conc_lines:
         if l["e"] in ("request", "release"):
@@ -550,7 +557,7 @@ def run(pid, tier, seed, replay):
         "distinct_nontrivial": {"count": len(steps),
                                 "rule": "distinct loop steps observed on the real service: (map before, request, answer, map after) "
                                         "and (released names, map after)"},
-        "exhaustive": True,
+        "exhaustive": seq_stat.get("runs", 0) == len(scripts),
         "exhaustive_scope": "every call of the alphabet (%d calls: reserve/can x %d deployments x lists of <= 2 of %d names, "
                             "duplicates and the empty list included; releases) from every reachable (in-use map, shut down or not) "
                             "of the one-caller model (%d states), on the real service" % (
@@ -562,6 +569,7 @@ def run(pid, tier, seed, replay):
         "samples": [scripts[n_edge // 3], scripts[-1], progs[0], progs[min(2, len(progs) - 1)]],
         "drift_steps": drift,
         "stuck_unconfirmed": unconfirmed,
+        "runs_not_executed_after_stuck_runs": (len(scripts) - seq_stat.get("runs", 0)) + (len(progs) * reps - conc_stat.get("runs", 0)),
         "binding_selftest": selftest,
         "seeds": [seed],
     }
